@@ -332,7 +332,34 @@ def r12_8(ctx) -> None:
               construct="thumbprint digest")
 
 
+def r12_9(ctx) -> None:
+    """the caller's `private` choice reaches the function that acts on it: wherever a function with a `private` parameter calls a
+    function with a `private` parameter, it hands its own value on (a dropped argument silently selects the callee's default -
+    for as_bytes that is "whatever the key holds", i.e. the private key)"""
+    eng = ctx.eng
+    n = 0
+    for fn in eng.prog.all_functions():
+        if "private" not in fn.params:
+            continue
+        for s in eng.cg.calls_in(fn):
+            if not isinstance(s.node, ast.Call):
+                continue
+            for c in s.callees:
+                if "private" not in c.params or c is fn:
+                    continue
+                n += 1
+                a = eng.cg.arg_for_param(s, c, "private")
+                ok = a is not None and norm(a) == "private"
+                if not ok and a is not None and norm(a).endswith(".is_private") and s.node.args and norm(s.node.args[0]).endswith(".raw_value"):
+                    ok = True  # the "export what the key holds" branch, decided by R12.7
+                ctx.check(ok, "R12.9", fn, s.node, f"{fn.short} -> {c.short}", f"{fn.short} does not pass its `private` argument on to {c.short} "
+                          f"({'argument omitted: the callee default applies' if a is None else 'passes ' + norm(a)}): a request for the public form can yield the private key",
+                          "private=private", construct=f"private flag forwarding {fn.short} -> {c.short}")
+    ctx.count("R12.9", n, 10, "call sites between functions that both take `private`")
+
+
 def run(ctx) -> None:
+    ctx.guard(r12_9)
     ctx.guard(r12_1)
     ctx.guard(r12_2)
     ctx.guard(r12_3)
